@@ -156,7 +156,7 @@ class Funcs:
         calls = self.calls
 
         def fn(*a, **kw):
-            if (self.depth == 0 and impl is not universal_resolve_type and len(a) >= 3 and hasattr(a[2], "parent_type")
+            if (self.depth == 0 and not getattr(impl, "_is_rtype", False) and len(a) >= 3 and hasattr(a[2], "parent_type")
                     and len(calls) < 20000):
                 calls.append((vid, a[2].parent_type.name, a[2].field_definition.name))
             self.depth += 1
@@ -197,6 +197,19 @@ def universal_resolver(root, ctx, info, **args):
 
 def universal_resolve_type(value, ctx, info):
     return value["__t"] if isinstance(value, dict) else None
+
+
+universal_resolve_type._is_rtype = True
+
+
+def object_returning_resolve_type(schema):
+    """A type resolver may return the ObjectType OBJECT (`TypeResolver -> Union[ObjectType, str]`): the one of the schema it was
+    written for. Used on a schema DERIVED from that one, the object it returns is not the derived schema's."""
+    def resolve_type(value, ctx, info):
+        name = value["__t"] if isinstance(value, dict) else None
+        return schema.types.get(name, name) if name is not None else None
+    resolve_type._is_rtype = True
+    return resolve_type
 
 
 def build_source(rng, size, funcs):
@@ -280,7 +293,7 @@ def decorate(rng, schema, funcs):
             continue
         via_registry = isinstance(t, ObjectType) and rng.random() < 0.5
         if isinstance(t, (InterfaceType, UnionType)):
-            t.resolve_type = funcs.make(universal_resolve_type)
+            t.resolve_type = funcs.make(object_returning_resolve_type(schema) if rng.random() < 0.3 else universal_resolve_type)
         if isinstance(t, ObjectType):
             if rng.random() < 0.5:
                 if via_registry:
@@ -875,7 +888,11 @@ def run_query(schema, query):
         resp = r.response()
         return {"data": resp.get("data"), "errors": sorted(str(e.get("message")) for e in resp.get("errors", []))}
     except Exception as e:  # noqa
+        LAST_EXC[0] = "%s: %s" % (type(e).__name__, e)
         return "exc:" + type(e).__name__
+
+
+LAST_EXC = [""]
 
 
 def introspect(schema):
